@@ -383,7 +383,9 @@ def run_chunk(chunk):
 
         try:
             with time_cap(1200):
-                seen, trans, deepest, capped = bfs.search([root], h.build, h.enabled, chunk["depth"], on_violation, stats)
+                seen, trans, deepest, capped = bfs.search([root], h.build, h.enabled, chunk["depth"], on_violation, stats, max_states=2000 if chunk["depth"] >= 4 else None)
+                if capped:
+                    r.caps["depth4_state_cap_2000_per_first_operation"] += 1
         except CaseTimeout:
             r.caps["bfs_chunk_1200s_cap"] += 1
             return r
